@@ -96,6 +96,16 @@ def run(tier, seed, rng):
         for op in list(G.ops):
             if op.get('op') == 'derive':
                 G.add_extra(op['_c'], dict(op='consistency', value=op['value'], _src=op))
+    # ---- built by attribute assignment on a packet that was serialized / parsed before: pairs of consistent values of one class
+    for G in groups:
+        by_class = {}
+        for op in G.ops:
+            if op.get('op') == 'derive':
+                by_class.setdefault(op['_c'], []).append(op)
+        for c, ops in by_class.items():
+            for x, y in zip(ops, ops[1:] + ops[:1]):
+                if x is not y and set(x['_value'][2]) == set(y['_value'][2]) == set(range(len(G.table[c]['fields']))) - {i for i, fd in enumerate(G.table[c]['fields']) if fd['body'][0] == 'em'}:
+                    G.add_extra(c, dict(op='reassign', a=x['value'], b=y['value'], _b=y['_value']))
     # finding D8: a regex delimiter that is not kept in the value (the property's wording covers it through "delimiter-free bodies")
     d8 = pktcases.Group({0: dict(end=None, align=None, sbl=None, gp=True, gu=True, vec=True, ann=True,
                                  fields=[{'move': None, 'body': ('elem', ('leaf', ('dregex', [('plus', 88)], False, b'')))},
@@ -123,6 +133,17 @@ def run(tier, seed, rng):
     last_pack = {}
     consistency = {}
     reparse_ok = {}
+    dist['reassigned'] = 0
+    for r in records:
+        if r['kind'] == 'extra:reassign' and isinstance(r['outcome'], dict) and 'ok' in r['outcome']:
+            o = r['outcome']['ok']
+            for tag in ('after_pack', 'after_unpack'):
+                if tag in o:
+                    dist['reassigned'] += 1
+                    if o[tag] != o['fresh']:
+                        failures.append(dict(kind='oracle', sig='pack-history', what=f"a packet that was {'serialized' if tag == 'after_pack' else 'parsed'} before and then had every field assigned "
+                                                  f"serializes to {o[tag]}, a fresh packet holding the same values to {o['fresh']}: pack() depends on what the packet held before",
+                                             classes=pktprops.class_source(groups, r['group']), cls=decl.cname(r['c']), before=r['op']['a'], assigned=r['op']['b']))
     for r in records:
         if r['kind'] == 'pack':
             dist['values'] += 1
@@ -234,4 +255,11 @@ def run(tier, seed, rng):
 
 
 def replay(f):
+    if f.get('sig') == 'pack-history':
+        res = run_impl(os.path.join(VERIF, 'harness', 'impl_pkt.py'),
+                       dict(header=decl.HEADER_PY, blocks=[dict(name='all', src=f['classes'])], modname='replay',
+                            cases=[dict(cls=f['cls'], op='reassign', a=f['before'], b=f['assigned'])]))
+        o = res['outcomes'][0]
+        still = not ('ok' in o and all(o['ok'].get(t, o['ok']['fresh']) == o['ok']['fresh'] for t in ('after_pack', 'after_unpack')))
+        return still, dict(now=o, what=f.get('what'))
     return pktprops.generic_replay(f)
